@@ -128,13 +128,13 @@ func observe(b *impl.Built, w []byte, s int) obs {
 		ob.problem = "budget"
 	}
 	for _, a := range impl.Alternatives(o.Node) {
-		ob.results = append(ob.results, impl.Render(a, 1))
+		ob.results = append(ob.results, impl.Render(a, impl.Base))
 	}
 	if o.Err != nil {
-		ob.errPos, ob.errText = int(o.Err.Pos())-1, o.Err.Error()
+		ob.errPos, ob.errText = int(o.Err.Pos())-impl.Base, o.Err.Error()
 	}
 	if e := ctx.Error(); e != nil {
-		ob.ctxErrPos = int(e.Pos()) - 1
+		ob.ctxErrPos = int(e.Pos()) - impl.Base
 	}
 	return ob
 }
@@ -218,7 +218,7 @@ func c03Grammar(res *explore.Result, g *gram.Grammar, inputs [][]byte, subsets b
 				res.Add("states", 1)
 				res.Add("transitions", b.Mon.Calls)
 				res.Add("traces", 1)
-				c := Case{Prior: b.MemoBefore, Grammar: gs, Input: string(w), Burn: burn, History: append([]string{}, history...)}
+				c := Case{Placement: impl.Placement, Prior: b.MemoBefore, Grammar: gs, Input: string(w), Burn: burn, History: append([]string{}, history...)}
 				where := fmt.Sprintf("%s, start %d", c, s)
 				if burn > 0 {
 					where += fmt.Sprintf(" [last shared parser built %d Memoize calls after the others]", burn)
@@ -313,6 +313,36 @@ func c03Run(env *explore.Env) *explore.Result {
 			}
 		}
 	}
+	// the file as second file of a set / reader created first / re-registered (impl.Placement 1..3): the seed corpus
+	// and the smallest grammars of every space once more; the memoized and the plain build must still agree
+	for pl := 1; pl <= 3; pl++ {
+		impl.Placement = pl
+		if env.Shard == 0 {
+			for _, c := range c03Seeds {
+				if g, err := gram.Parse(c.Grammar); err == nil {
+					c03Grammar(res, g, gram.Inputs(ab, len(c.Input)), false, false, 0)
+				}
+			}
+		}
+		for _, s := range specs {
+			if s.sp.FixedShared != nil {
+				continue
+			}
+			small := *s.sp
+			if small.Max > small.Min+1 {
+				small.Max = small.Min + 1
+			}
+			inputs := gram.Inputs(s.alpha, 3)
+			small.Each(func(idx int64, g *gram.Grammar) {
+				if !env.Mine(idx) || g.FirstTerminal() == 'b' {
+					return
+				}
+				res.Add("grammars_under_other_file_placements", 1)
+				c03Grammar(res, g, inputs, !s.noSubsets, false, 0)
+			})
+		}
+	}
+	impl.Placement = 0
 	for i, src := range capacityConsumers() {
 		if !env.Mine(int64(i)) {
 			continue
